@@ -21,6 +21,21 @@ def proj : List Ev → List Up.Ev
   | .disconnect :: r => .flush :: proj r
   | .resume :: r => proj r
 
+theorem Eqv_run_proj : ∀ (evs : List Ev) (s : St) (t : Up.St), Eqv s.up t → Eqv (run s evs).up (Up.run t (proj evs))
+  | [], _, _, h => h
+  | .up e :: r, s, t, h => by
+    rw [run_cons]
+    show Eqv _ (Up.run (Up.step t e) (proj r))
+    exact Eqv_run_proj r _ _ (Eqv_step _ _ e h)
+  | .disconnect :: r, s, t, h => by
+    rw [run_cons]
+    show Eqv _ (Up.run (cut t) (proj r))
+    exact Eqv_run_proj r _ _ ((Eqv_disconnect s).trans (Eqv_cut _ _ h))
+  | .resume :: r, s, t, h => by
+    rw [run_cons]
+    show Eqv _ (Up.run t (proj r))
+    exact Eqv_run_proj r _ _ ((Eqv_resume s).trans h)
+
 /-- PROJECTION: disconnects and resumes never change what was cut, numbered, counted, buffered, learnt or reported: on these
     fields a history with failures equals its projection — so C01's conservation, numbering and close totals carry over verbatim
     (sequence numbers are never reused, totals still equal what was written). -/
@@ -29,7 +44,9 @@ theorem C02.up_projection (p : Policy) (rev : List (DataID × Nat)) (rel : Bool)
     let t := Up.run (Up.init p rev) (proj evs)
     s.sent = t.sent ∧ s.sendHook = t.sendHook ∧ s.seq = t.seq ∧ s.total = t.total ∧ s.buf = t.buf ∧ s.rev = t.rev ∧
     s.ackHook = t.ackHook ∧ s.closeReq = t.closeReq := by
-  sorry
+  intro s t
+  have h : Eqv s t := Eqv_run_proj evs (init p rev rel) (Up.init p rev) (Eqv.refl _)
+  exact ⟨h.sent, h.sendHook, h.seq, h.total, h.buf, h.rev, h.ackHook, h.closeReq⟩
 
 /-- sequence numbers acknowledged along a history (by any result, whatever its code) -/
 def acked : List Ev → List Nat
@@ -37,21 +54,81 @@ def acked : List Ev → List Nat
   | .up (.ack rs _) :: r => rs.map (·.1) ++ acked r
   | _ :: r => acked r
 
+theorem acked_eq (evs : List Ev) : acked evs = (evs.flatMap res).map (·.1) := by
+  induction evs with
+  | nil => rfl
+  | cons e r ih =>
+    cases e with
+    | up e => cases e <;> simp [acked, res, Up.res, ih]
+    | disconnect => simp [acked, res, ih]
+    | resume => simp [acked, res, ih]
+
+theorem ackHook_init_run (p : Policy) (rev : List (DataID × Nat)) (rel : Bool) (evs : List Ev) :
+    (run (init p rev rel) evs).up.ackHook.map (·.1) = acked evs := by
+  rw [ackHook_run, acked_eq]
+  rfl
+
+theorem Kept_init_run (p : Policy) (rev : List (DataID × Nat)) (evs : List Ev) : Kept (run (init p rev true) evs).up :=
+  Kept_run evs (init p rev true) rfl (Inv_init p rev) (Kept_init p rev)
+
 /-- STORE INVARIANT (reliable stream): in every reachable state every chunk that was cut and not acknowledged is in the sent
     storage under its original sequence number with its original content — whatever failed and resumed in between. -/
 theorem C02.store_inv (p : Policy) (rev : List (DataID × Nat)) (evs : List Ev) :
     let s := run (init p rev true) evs
     ∀ e ∈ s.up.sendHook, e.1 ∉ acked evs → alGet e.1 s.up.store = some e.2 := by
-  sorry
+  intro s e he hn
+  refine Kept_init_run p rev evs e he ?_
+  rw [ackHook_init_run]
+  exact hn
 
+-- STATEMENT CHANGED: added the hypothesis `hq : q ≤ s.up.seq` (the stored chunk carries an already issued sequence number).
+-- As written (for an arbitrary, possibly unreachable state `s`) the statement is false: the dying flush loop cuts the buffer
+-- into chunk `s.up.seq + 1` and stores it with `alPut`, which overwrites an entry already stored under that (not yet issued)
+-- number.  Counterexample (`example` below, by `decide`): seq = 0, store = [(1, [⟨9, []⟩])], buf = [(7, [⟨1, [1]⟩])]:
+-- before `alGet 1 store = some [⟨9, []⟩]`, after `disconnect` `alGet 1 store = some [⟨7, [⟨1, [1]⟩]⟩]`.
+-- The hypothesis holds for every stored chunk of every reachable state (`C02.store_keys_issued` below), so on reachable
+-- states the original statement holds verbatim (`C02.disconnect_keeps_store_reachable`).
 /-- cancellation (link death) never removes a stored chunk -/
-theorem C02.disconnect_keeps_store (s : St) (q : Nat) (v : Groups) (h : alGet q s.up.store = some v) :
+theorem C02.disconnect_keeps_store (s : St) (q : Nat) (v : Groups) (h : alGet q s.up.store = some v) (hq : q ≤ s.up.seq) :
     alGet q (disconnect s).up.store = some v := by
-  sorry
+  rw [disconnect_up]
+  show alGet q (cut s.up).store = some v
+  by_cases hb : s.up.buf = []
+  · rw [cut_nil _ hb]; exact h
+  · rw [cut_cons _ hb]
+    show alGet q (alPut (s.up.seq + 1) (toGroups s.up.buf) s.up.store) = some v
+    have hne : q ≠ s.up.seq + 1 := by omega
+    rw [alGet_alPut_ne hne]
+    exact h
+
+/-- the counterexample to the original statement of `C02.disconnect_keeps_store` (no hypothesis on `q`) -/
+example : ∃ (s : St) (q : Nat) (v : Groups), alGet q s.up.store = some v ∧ alGet q (disconnect s).up.store ≠ some v :=
+  ⟨{ up := { buf := [(7, [⟨1, [1]⟩])], seq := 0, store := [(1, [⟨9, []⟩])] } }, 1, [⟨9, []⟩], by decide, by decide⟩
+
+/-- in every reachable state (reliable or not) every stored chunk carries an already issued sequence number -/
+theorem C02.store_keys_issued (p : Policy) (rev : List (DataID × Nat)) (rel : Bool) (evs : List Ev) (q : Nat) (v : Groups)
+    (h : alGet q (run (init p rev rel) evs).up.store = some v) : q ≤ (run (init p rev rel) evs).up.seq :=
+  alGet_le_of_KeysLe _ (KeysLe_run evs (init p rev rel) (fun _ hx => nomatch hx)) q v h
+
+/-- the original statement of `C02.disconnect_keeps_store`, on reachable states -/
+theorem C02.disconnect_keeps_store_reachable (p : Policy) (rev : List (DataID × Nat)) (rel : Bool) (evs : List Ev)
+    (q : Nat) (v : Groups) (h : alGet q (run (init p rev rel) evs).up.store = some v) :
+    alGet q (disconnect (run (init p rev rel) evs)).up.store = some v :=
+  C02.disconnect_keeps_store _ q v h (C02.store_keys_issued p rev rel evs q v h)
 
 /-- one alias never names two data ids in the table (guaranteed by the broker, cf. C01.AliasSane) -/
 def RevInj (rev : List (DataID × Nat)) : Prop := ∀ d d' a, (d, a) ∈ rev → (d', a) ∈ rev → d = d'
 
+theorem RevSane_of_RevInj (rev : List (DataID × Nat)) (h : RevInj rev) : RevSane rev := by
+  intro e he e' he' heq
+  obtain ⟨d, a⟩ := e
+  obtain ⟨d', a'⟩ := e'
+  simp only at heq
+  subst heq
+  exact h d d' a he he'
+
+-- note: the hypothesis `hnd` is not needed by the proof; kept as stated
+set_option linter.unusedVariables false in
 /-- RESUME RESENDS: after a successful resume a reliable stream retransmits exactly the stored chunks, each under its original
     sequence number and — resolved through the alias table — with its stored content; and waits for each again. -/
 theorem C02.resume_resends (s : St) (hr : s.reliable = true) (hinj : RevInj s.up.rev)
@@ -61,12 +138,29 @@ theorem C02.resume_resends (s : St) (hr : s.reliable = true) (hinj : RevInj s.up
         ∃ c ∈ s'.resent, c.seq = q ∧ c.groups.map (resolve s.up.rev) = v.map some ∧ q ∈ s'.up.waiters) ∧
     (∀ c ∈ s'.resent, c ∈ s.resent ∨ (alGet c.seq s.up.store).isSome) ∧
     s'.up.store = s.up.store := by
-  sorry
+  intro s'
+  refine ⟨?_, ?_, resume_store s hr⟩
+  · intro q v hqv
+    have hm : (q, v) ∈ s.up.store := alGet_mem q v _ hqv
+    refine ⟨resendOf s.up.rev (q, v), resume_resent_mem s hr _ hm, rfl, resendOf_resolve _ (RevSane_of_RevInj _ hinj) _, ?_⟩
+    show q ∈ (resume s).up.waiters
+    rw [resume_reliable s hr]
+    show q ∈ (sortBySeq s.up.store).map (·.1)
+    exact List.mem_map.2 ⟨(q, v), (mem_sortBySeq _ _).2 hm, rfl⟩
+  · intro c hc
+    have hc' : c ∈ (resume s).resent := hc
+    rw [resume_reliable s hr] at hc'
+    have hc'' : c ∈ s.resent ++ (sortBySeq s.up.store).map (resendOf s.up.rev) := hc'
+    rcases List.mem_append.1 hc'' with h | h
+    · exact Or.inl h
+    · obtain ⟨x, hx, rfl⟩ := List.mem_map.1 h
+      exact Or.inr (alGet_isSome_of_mem x _ ((mem_sortBySeq _ _).1 hx))
 
 /-- a non-reliable stream drops its own stored chunks at resume and retransmits nothing -/
 theorem C02.unreliable_resume_clears (s : St) (hr : s.reliable = false) :
     (resume s).resent = s.resent ∧ (resume s).up.store = [] := by
-  sorry
+  rw [resume_unreliable s hr]
+  exact ⟨rfl, rfl⟩
 
 /-- a chunk is delivered once it is acknowledged or retransmitted -/
 def Delivered (s : St) (evs : List Ev) (q : Nat) : Prop := q ∈ acked evs ∨ ∃ c ∈ s.resent, c.seq = q
@@ -78,7 +172,23 @@ theorem C02.delivery (p : Policy) (rev : List (DataID × Nat)) (evs : List Ev) :
     let evs' := evs ++ [.disconnect, .resume]
     let s := run (init p rev true) evs'
     s.up.buf = [] ∧ ∀ e ∈ s.up.sendHook, Delivered s evs' e.1 := by
-  sorry
+  intro evs' s
+  have hs : s = resume (disconnect (run (init p rev true) evs)) := by
+    show run (init p rev true) (evs ++ [.disconnect, .resume]) = _
+    rw [run_append]; rfl
+  have hr : (disconnect (run (init p rev true) evs)).reliable = true := by
+    rw [disconnect_reliable, run_reliable]; rfl
+  refine ⟨?_, ?_⟩
+  · rw [hs, (Eqv_resume _).buf, disconnect_buf]
+  · intro e he
+    by_cases ha : e.1 ∈ acked evs'
+    · exact Or.inl ha
+    · right
+      have hst : alGet e.1 s.up.store = some e.2 := C02.store_inv p rev evs' e he ha
+      rw [hs, resume_store _ hr] at hst
+      refine ⟨resendOf (disconnect (run (init p rev true) evs)).up.rev (e.1, e.2), ?_, rfl⟩
+      rw [hs]
+      exact resume_resent_mem _ hr _ (alGet_mem _ _ _ hst)
 
 example : ((run (init .none [] true) [.up (.accept 1 [⟨1, [9]⟩]), .up .flush, .up (.accept 2 [⟨2, [8]⟩]), .disconnect, .resume]).resent.map (·.seq)) = [1, 2] := by decide
 
